@@ -94,6 +94,11 @@ pub struct AgentRec {
     pub stream_keys: Vec<Key>,
     pub subs: BTreeMap<Key, SubState>,
     seg_start: Option<SegStart>,
+    /// Stream agent: the waker fired (from another thread) while the last `poll_next` was still
+    /// running and that poll returned `Pending`. `FuturesUnordered` has most likely consumed the
+    /// wake inside that same `poll_next`, but the harness cannot know: the stream's blocked status
+    /// is reported as not comparable (`u`) until it is polled again.
+    pub stale_wake: bool,
 }
 
 impl AgentRec {
@@ -319,7 +324,11 @@ impl Executor {
             Action::Resume(aid) => self.do_resume(aid)?,
             Action::StreamStep(aid) => self.do_stream_step(aid)?,
             Action::Cancel(aid) => self.do_cancel(aid)?,
-            Action::Gop(g, op) => (vec![(Label::Gop(g, op), self.do_gop(g, op)?)], vec![]),
+            Action::Gop(g, op) => {
+                // LockPool values are `()`: they show as 0, so the label carries 0 as well.
+                let op = if self.backend == Backend::P { op.with_value(0) } else { op };
+                (vec![(Label::Gop(g, op), self.do_gop(g, op)?)], vec![])
+            }
             Action::CbRet(aid, r, hold) => self.do_cbret(aid, r, hold)?,
             Action::Tick(d) => {
                 self.clock.advance(d);
@@ -365,7 +374,9 @@ impl Executor {
             match &a.state {
                 AState::Blocked if !a.woken() => blocked.push(a.aid),
                 AState::StreamIdle(LastPoll::Pending) => {
-                    if !a.woken() {
+                    if a.stale_wake {
+                        unknown.push(a.aid)
+                    } else if !a.woken() {
                         blocked.push(a.aid)
                     }
                 }
@@ -497,6 +508,7 @@ impl Executor {
             stream_keys: Vec::new(),
             subs: BTreeMap::new(),
             seg_start: None,
+            stale_wake: false,
         });
         let obs = self.absorb(aid, step);
         let events = self.agents[aid].cx.take_events();
@@ -624,6 +636,7 @@ impl Executor {
             AState::StreamIdle(_) => {
                 a.cx.clear_woken();
                 let step = a.cx.send(Cmd::Poll);
+                self.agents[aid].stale_wake = false;
                 Ok(self.stream_segment(aid, SegStart::FromPoll, step))
             }
             AState::Parked(_) => {
@@ -721,6 +734,7 @@ impl Executor {
                         }
                     }
                     PollResult::Pending => {
+                        a.stale_wake = a.cx.is_woken();
                         a.state = AState::StreamIdle(LastPoll::Pending);
                         steps.push((Label::PollEnd(aid), Obs::Pending));
                     }
